@@ -50,19 +50,20 @@ type hsParams struct {
 }
 
 type hsResult struct {
-	closedVisibly            bool
-	hsOK                     [2]bool
-	hsRet                    [2]bool
-	srvN                     int
-	delivered                bool
-	clientErr                bool
-	virtual                  time.Duration
-	checkedAfter, flowsAfter bool
-	checkedBack, backArrived bool
-	backTook                 time.Duration
-	rtSeen                   [2]bool
-	rtAfterHs                [2]time.Duration
-	synTx                    [2]int
+	closedVisibly                bool
+	hsOK                         [2]bool
+	hsRet                        [2]bool
+	srvN                         int
+	delivered                    bool
+	clientErr                    bool
+	virtual                      time.Duration
+	checkedAfter, flowsAfter     bool
+	checkedBack, backArrived     bool
+	checkedRestart, serverGaveUp bool
+	backTook                     time.Duration
+	rtSeen                       [2]bool
+	rtAfterHs                    [2]time.Duration
+	synTx                        [2]int
 }
 
 func runHandshakeScenario(t *testing.T, l *evlog, q *oracle, cfg simCfg, p hsParams) hsResult {
@@ -227,6 +228,22 @@ func runHandshakeScenario(t *testing.T, l *evlog, q *oracle, cfg simCfg, p hsPar
 				}
 			}
 		}
+		// a client that restarted without its FIN getting through shakes hands again over the same transport: its
+		// SYN (the same N) reaches the server's established connection, which must give up (its calls fail, the
+		// application accepts anew) rather than swallow the SYNs for ever
+		if res.checkedBack && res.backArrived && p.class == "handshake-loss-only" {
+			s.injectRaw(0, syn(int(cfg.n)))
+			for k := 0; k < 10; k++ {
+				for x := 0; x < 2; x++ {
+					for s.canOp(x) {
+						s.op(x, "deliver")
+					}
+				}
+				s.advance(100 * time.Millisecond)
+			}
+			res.checkedRestart = true
+			res.serverGaveUp = isClosedQuick(s, 1)
+		}
 		res.virtual = time.Since(start)
 		for x := 0; x < 2; x++ {
 			res.hsRet[x] = s.hsReturned(x)
@@ -312,6 +329,11 @@ func TestGenC10(t *testing.T) {
 				}
 				q.check(dup == "", "c10:data-retransmitted-although-only-handshake-packets-were-lost:"+p.class, func() string {
 					return desc() + "; retransmitted: " + dup
+				})
+			}
+			if res.checkedRestart {
+				q.check(res.serverGaveUp, "c10:server-keeps-its-connection-when-the-client-shakes-hands-again:"+p.class, func() string {
+					return desc() + "; a SYN with the connection's own N arrived at the server in the data phase and its connection is still open"
 				})
 			}
 			if res.checkedBack {
